@@ -789,7 +789,8 @@ type obsT struct {
 
 func parseType(s string) (string, int) {
 	if strings.HasPrefix(s, "varchar(") {
-		n, _ := strconv.Atoi(strings.TrimSuffix(strings.TrimPrefix(s, "varchar("), ")"))
+		n := 0
+		fmt.Sscanf(s, "varchar(%d)", &n)
 		return "varchar", n
 	}
 	return s, 0
@@ -817,7 +818,11 @@ func observe(s *eng.S, tn int) obsT {
 		k, n := parseType(ts)
 		col := ColT{ID: colID(fmt.Sprint(row[0])), Kind: k, N: n, Null: fmt.Sprint(row[3]) == "YES"}
 		if k == "varchar" {
-			col.Coll = collID(fmt.Sprint(row[2]))
+			// the Type text carries the collation when it differs from the table's (the Collation column of SHOW FULL
+			// COLUMNS reports the table collation for such columns, so it is not used)
+			if i := strings.Index(ts, " COLLATE "); i >= 0 {
+				col.Coll = collID(ts[i+len(" COLLATE "):])
+			}
 		}
 		if strings.HasPrefix(ts, "decimal(") {
 			col.Kind = "decimal"
